@@ -807,7 +807,15 @@ func runCore(seed int64, nHist, nOps int, out *bufio.Writer, thorough bool) *cor
 			ops = maxOps // same PRNG prefix: the history is a prefix of the full one
 		}
 		aborted := false
+		base := r
 		for k := 0; k < ops && !aborted; k++ {
+			if dropOps[k] {
+				continue // shrinking: this operation is left out; the others keep their own random choices
+			}
+			// every operation draws from its own PRNG (history seed, operation index): leaving one out
+			// or truncating the history does not change the choices of the others
+			r := rand.New(rand.NewSource(hs*1000003 + int64(k)*7919 + 17))
+			w.r = r
 			n := len(w.reps)
 			i := r.Intn(n)
 			for w.reps[i].tampered {
@@ -880,6 +888,7 @@ func runCore(seed int64, nHist, nOps int, out *bufio.Writer, thorough bool) *cor
 			w.observe(i)
 			stats.Ops++
 		}
+		w.r = base
 		if aborted {
 			fmt.Fprintf(out, "X abort\n")
 			stats.Histories++
